@@ -96,9 +96,9 @@ Proof.
   pose proof (oview_act (mk idx) a w) as H1. destruct (act P (mk idx) a w) as [w1 c1].
   specialize (IH mk (idx + 1) w1). destruct (acts P mk (idx + 1) l w1) as [w2 c2]. cbn [fst] in *. congruence.
 Qed.
-Lemma oview_body_begin sd t r c w : oview (body_begin P sd t r c w) = oview w.
+Lemma oview_body_sample sd t r c w : oview (body_sample P sd t r c w) = oview w.
 Proof.
-  unfold body_begin. pose proof (oview_sample_readers sd (xsys_of P t) w) as H1.
+  unfold body_sample. pose proof (oview_sample_readers sd (xsys_of P t) w) as H1.
   destruct (sample_readers sd (xsys_of P t) w) as [sm w1]. cbn [snd] in H1.
   destruct (sm_l sm) as [[src [v|]]|]; try exact H1. destruct (xsys_of P t) as [[x ?]|]; exact H1.
 Qed.
@@ -196,7 +196,7 @@ Section OSteps2.
 Variable P : program.
 
 (* for a system that is already spawned, no primitive command changes its callback record except by dropping it *)
-Lemma cb_stable_prim t c w : In t (spawned w) -> cb_stable t w (fst (apply_prim P c w)).
+Lemma cb_stable_prim_gen t c w : (In t (spawned w) \/ match c with CSpawnSys _ | CInsertOnce _ _ => False | _ => True end) -> cb_stable t w (fst (apply_prim P c w)).
 Proof.
   intros Ht. destruct c; cbn [apply_prim]; try (apply cb_stable_oview; reflexivity).
   - destruct (is_alive d w); apply cb_stable_oview; reflexivity.
@@ -209,11 +209,11 @@ Proof.
   - apply cb_stable_despawn.
   - destruct (is_alive s w && negb (memN s (spawned w))) eqn:E; cbn [fst]; [|apply cb_stable_oview; reflexivity].
     apply andb_true_iff in E. destruct E as [_ E]. apply negb_true_iff, memN_false in E.
-    split; cbn; [intros x Hx; right; exact Hx|]. left. apply alookup_aset_other. intros ->. contradiction.
+    destruct Ht as [Ht|[]]. split; cbn; [intros x Hx; right; exact Hx|]. left. apply alookup_aset_other. intros ->. contradiction.
   - destruct (negb (is_alive s w)); cbn [fst]; [apply cb_stable_oview; reflexivity|].
     destruct (negb (memN s (spawned w))) eqn:E; [|apply cb_stable_oview; reflexivity].
     apply negb_true_iff, memN_false in E.
-    split; cbn; [intros x Hx; right; exact Hx|]. left. apply alookup_aset_other. intros ->. contradiction.
+    destruct Ht as [Ht|[]]. split; cbn; [intros x Hx; right; exact Hx|]. left. apply alookup_aset_other. intros ->. contradiction.
   - apply cb_stable_oview.
     assert (Hh : forall h w0, oview (fst (let (w1, cs) := reg_triggers_cmds h b w0 in (handle_drop h w1, cs))) = oview w0).
     { intros h w0. pose proof (oview_reg_triggers_cmds h b w0) as H1. destruct (reg_triggers_cmds h b w0) as [w1 cs]. cbn [fst] in *.
@@ -236,6 +236,11 @@ Proof.
     match goal with |- context [if ?b then _ else _] => destruct b end; apply cb_stable_oview; reflexivity.
   - apply cb_stable_oview. apply oview_poll.
 Qed.
+
+Lemma cb_stable_prim t c w : In t (spawned w) -> cb_stable t w (fst (apply_prim P c w)).
+Proof. intros H. apply cb_stable_prim_gen. left. exact H. Qed.
+Lemma cb_stable_prim_any t c w : (forall s, c <> CSpawnSys s) -> (forall s tk, c <> CInsertOnce s tk) -> cb_stable t w (fst (apply_prim P c w)).
+Proof. intros H1 H2. apply cb_stable_prim_gen. right. destruct c; try exact I; [exact (H1 _ eq_refl)|exact (H2 _ _ eq_refl)]. Qed.
 
 Lemma Kinv_closed t : closed P (Kinv t).
 Proof.
@@ -264,7 +269,12 @@ Proof.
     split; [exact Hs|]. intros cb Hcb. cbn in Hcb. destruct (N.eq_dec t t0) as [->|Hne].
     + rewrite alookup_aupd_same, Ecb in Hcb. inversion Hcb; subst. cbn. apply Hk. exact Ecb.
     + rewrite alookup_aupd_other in Hcb by exact Hne. apply Hk. exact Hcb.
-  - intros sd t0 r c w H. eapply Kinv_stable; [|exact H]. apply cb_stable_oview. apply oview_body_begin.
+  - intros sd t0 r c w _ H. unfold body_begin.
+    assert (H0 : Kinv t (body_sample P sd t0 r c w)) by (eapply Kinv_stable; [|exact H]; apply cb_stable_oview; apply oview_body_sample).
+    destruct H0 as [Hs Hk]. unfold state_bump. destruct (alookup t0 (cbs (body_sample P sd t0 r c w))) as [cb0|] eqn:Ecb; [|split; assumption].
+    split; [exact Hs|]. intros cb Hcb. cbn in Hcb. destruct (N.eq_dec t t0) as [->|Hne].
+    + rewrite alookup_aupd_same, Ecb in Hcb. inversion Hcb; subst. cbn. apply Hk. exact Ecb.
+    + rewrite alookup_aupd_other in Hcb by exact Hne. apply Hk. exact Hcb.
   - intros w H. exact H.
 Qed.
 
@@ -288,7 +298,7 @@ Proof.
   - intros t0 w H. eapply gone_evolves; [|exact H]. apply evolves_despawn.
   - intros t0 cb b w H _. exact H.
   - intros t0 tk w H. unfold once_finish. destruct (alookup t0 (cbs w)); exact H.
-  - intros sd t0 r c w H. eapply gone_evolves; [|exact H]. apply evolves_rview. apply rview_body_begin.
+  - intros sd t0 r c w _ H. eapply gone_evolves; [|exact H]. apply evolves_rview. apply rview_body_begin.
   - intros w H. exact H.
 Qed.
 End OSteps2.
@@ -353,6 +363,13 @@ Lemma O_cb_bump t cb b w : Oinv w -> alookup t (storage w) <> Some true -> Oinv 
 Proof.
   intros HO Hst t0 cb0 Hcb Honce Htk. unfold cb_bump in Hcb. cbn in Hcb |- *.
   destruct (N.eq_dec t0 t) as [->|Hne]; [exact Hst|]. rewrite alookup_aupd_other in Hcb by exact Hne. eapply HO; eauto.
+Qed.
+Lemma O_state_bump t w : Oinv w -> Oinv (state_bump t w).
+Proof.
+  intros HO. unfold state_bump. destruct (alookup t (cbs w)) as [cb|] eqn:Ecb; [|exact HO].
+  intros t0 cb0 Hcb Honce Htk. cbn in Hcb |- *. destruct (N.eq_dec t0 t) as [->|Hne].
+  - rewrite alookup_aupd_same, Ecb in Hcb. inversion Hcb; subst. cbn in Honce, Htk. eapply HO; eauto.
+  - rewrite alookup_aupd_other in Hcb by exact Hne. eapply HO; eauto.
 Qed.
 Lemma O_once_finish t tk w : Oinv w -> alookup t (storage w) <> Some true -> Oinv (once_finish t tk w).
 Proof.
@@ -491,6 +508,9 @@ Proof.
   - rewrite alookup_aupd_same. specialize (HC t Hst). destruct (alookup t (cbs w)); [discriminate|contradiction].
   - rewrite alookup_aupd_other by exact Hne. apply HC. exact Hst.
 Qed.
+Lemma C_state_bump t w : Cinv w -> Cinv (state_bump t w).
+Proof. intros HC. unfold state_bump. destruct (alookup t (cbs w)); [apply C_cbs_upd; exact HC|exact HC]. Qed.
+
 Lemma C_once_finish t tk w : Cinv w -> Cinv (once_finish t tk w).
 Proof.
   intros H. unfold once_finish. destruct (alookup t (cbs w)) as [cb'|]; [|exact H].
